@@ -1,5 +1,6 @@
 import QV.Proofs.Bind
 import QV.Proofs.BindTyped
+import QV.Proofs.BindAnn
 /-!
 # C08 – Binding parameters is specialisation
 
@@ -404,5 +405,115 @@ theorem bind_typed_on_witness :
     ∃ p', QV.Bind.bind Quirks.none wProg wKv = .ok p' ∧
       flat (Sem (WAlg Quirks.none) p' [.q [false, false, false, false]]) = some [false, false, true, true] :=
   ⟨_, rfl, by decide⟩
+
+/-! ## `is_value_of` on the annotation as written accepts exactly the values of the declared shape
+
+`isValueOfAnn` (`QV/Model/BindAnn.lean`) follows `is_value_of` on the annotation the user wrote, before
+`Qlist` / `Qmatrix` are elaborated to nested tuples: which argument counts the rows, which the entries of a
+row.  (The code-model correspondence `c08.isvalueof` compares it with the real function on every run.) -/
+
+/-- `Qmatrix[T, n, m]`: exactly the iterables of `n` rows, every row an iterable of `m` values of `T` –
+    for every element annotation, all sizes, every value (a transposed, ragged, too long / short value of a
+    non-square shape is not a value) -/
+theorem isValueOf_qmatrix_shape (t : AnnE) (n m : Nat) (hn : 0 < n) (hm : 0 < m) (v : PyVal) :
+    isValueOfAnn (.sub "Qmatrix" [t, .int n, .int m]) v = true ↔
+      ∃ rows, v = .iter rows ∧ rows.length = n ∧
+        ∀ r ∈ rows, ∃ xs, r = .iter xs ∧ xs.length = m ∧ ∀ x ∈ xs, isValueOfAnn t x = true := by
+  cases v with
+  | atom a => simp [isValueOfAnn, AnnE.head, scalarValueOf]
+  | iter ws =>
+    have := rows_iff t m ws
+    simp only [Bool.and_eq_true, List.all_eq_true] at this
+    simp [isValueOfAnn, AnnE.head, AnnE.posInt, hn, hm, and_assoc, this]
+
+/-- `Qlist[T, n]`: exactly the iterables of `n` values of `T` -/
+theorem isValueOf_qlist_shape (t : AnnE) (n : Nat) (hn : 0 < n) (v : PyVal) :
+    isValueOfAnn (.sub "Qlist" [t, .int n]) v = true ↔
+      ∃ xs, v = .iter xs ∧ xs.length = n ∧ ∀ x ∈ xs, isValueOfAnn t x = true := by
+  cases v with
+  | atom a => simp [isValueOfAnn, AnnE.head, scalarValueOf]
+  | iter ws => simp [isValueOfAnn, AnnE.head, AnnE.posInt, hn, allValueOf_iff]
+
+/-- `Tuple[T1, .., Tk]` (k > 0): exactly the iterables of `k` values, the i-th a value of `Ti` -/
+theorem isValueOf_tuple_shape (ts : List AnnE) (h : ts ≠ []) (v : PyVal) :
+    isValueOfAnn (.sub "Tuple" ts) v = true ↔
+      ∃ xs, v = .iter xs ∧ xs.length = ts.length ∧ ∀ p ∈ ts.zip xs, isValueOfAnn p.1 p.2 = true := by
+  cases v with
+  | atom a => simp [isValueOfAnn, AnnE.head, scalarValueOf]
+  | iter ws => simp [isValueOfAnn, AnnE.head, h, zip_iff]
+
+/-- a size that is not a positive integer literal, or a wrong number of arguments: no value at all (the
+    parameter is then bound as a bare literal, whatever the value) -/
+theorem isValueOf_qmatrix_malformed (t : AnnE) (n m : Int) (h : n ≤ 0 ∨ m ≤ 0) (v : PyVal) :
+    isValueOfAnn (.sub "Qmatrix" [t, .int n, .int m]) v = false := by
+  cases v with
+  | atom a => simp [isValueOfAnn, AnnE.head, scalarValueOf]
+  | iter ws =>
+    rcases h with h | h
+    · have : ¬ n > 0 := by omega
+      simp [isValueOfAnn, AnnE.head, AnnE.posInt, this]
+    · have : ¬ m > 0 := by omega
+      by_cases hn : n > 0 <;> simp [isValueOfAnn, AnnE.head, AnnE.posInt, this, hn]
+
+/-- `Qint[w]` names the builtin class of that width, for every width of the regenerated table -/
+theorem builtinName_qint : ∀ p ∈ QV.Gen.qintTypes, builtinName "Qint" [.int p.2] = some p.1 := by
+  decide
+
+/-- scalars: `Qint[w]` (every shipped width) has exactly the ints `0 ≤ v < 2^w` as values – the same
+    test as `isValueOf (.qint w)` of the elaborated types – and no bool, no string, no iterable -/
+theorem isValueOf_qint_scalar : ∀ p ∈ QV.Gen.qintTypes, ∀ v : PyVal,
+    isValueOfAnn (.sub "Qint" [.int p.2]) v = isValueOf (.qint p.2) v := by
+  intro p hp v
+  have hb := builtinName_qint p hp
+  simp only [QV.Gen.qintTypes, List.mem_cons, List.not_mem_nil, or_false] at hp
+  cases v with
+  | iter ws => simp [isValueOfAnn, AnnE.head, isValueOf]
+  | atom a =>
+    rcases hp with rfl | rfl | rfl | rfl | rfl | rfl | rfl | rfl | rfl <;>
+      norm_cast at hb <;>
+      cases a <;>
+      simp [isValueOfAnn, AnnE.head, scalarValueOf, hb, builtinValue, isValueOf, lookupS, QV.Gen.qintTypes]
+
+/-! ## Reading the declared type of the typed assignment (`AnnE.readable`, finding `annNestedContainerUnread`) -/
+
+mutual
+/-- the repaired annotation elaboration (quirk off) reads every nesting of containers -/
+theorem readable_repaired : ∀ a : AnnE, a.readable Quirks.none = true
+  | .sub id elts => by
+      unfold AnnE.readable
+      split
+      · cases elts with
+        | nil => rfl
+        | cons t l =>
+          have := readable_repaired t
+          simpa [Quirks.none] using this
+      · split
+        · next h => simp [Quirks.none] at h
+        · exact readableList_repaired elts
+  | .name _ => by simp [AnnE.readable]
+  | .int _ => by simp [AnnE.readable]
+  | .other => by simp [AnnE.readable]
+theorem readableList_repaired : ∀ l : List AnnE, readableList Quirks.none l = true
+  | [] => rfl
+  | a :: l => by simp [readableList, readable_repaired a, readableList_repaired l]
+end
+
+/-- the listed defect `annNestedContainerUnread`: `[[1, 2, 3], [4, 5, 6]]` is a value of
+    `Qlist[Qlist[Qint[4], 3], 2]` (so `bind` injects the typed assignment) and the code as it is cannot read that
+    annotation; a `Qlist` of tuples, a tuple of `Qlist`s and a `Qmatrix` are read; a one-element `Tuple` of a
+    `Qmatrix` is not, a one-element `Tuple` of a `Qint` is -/
+theorem nested_container_unread_witness :
+    let q : Quirks := { annNestedContainerUnread := true }
+    let q4 : AnnE := .sub "Qint" [.int 4]
+    let ll : AnnE := .sub "Qlist" [.sub "Qlist" [q4, .int 3], .int 2]
+    let i (k : Int) : PyVal := .atom (.i k)
+    isValueOfAnn ll (.iter [.iter [i 1, i 2, i 3], .iter [i 4, i 5, i 6]]) = true
+    ∧ ll.readable q = false
+    ∧ ll.readable Quirks.none = true
+    ∧ (AnnE.sub "Qlist" [.sub "Tuple" [.name "bool", q4], .int 2]).readable q = true
+    ∧ (AnnE.sub "Tuple" [.sub "Qlist" [q4, .int 2], .sub "Qmatrix" [q4, .int 2, .int 1]]).readable q = true
+    ∧ (AnnE.sub "Tuple" [.sub "Qmatrix" [q4, .int 2, .int 3]]).readable q = false
+    ∧ (AnnE.sub "Tuple" [q4]).readable q = true := by
+  decide
 
 end QV.C08
